@@ -26,7 +26,7 @@ def run_bounded(bid, tier='quick', repo='/repo', extra_args=None):
     src = os.path.join(BDIR, crate)
     repo = os.path.realpath(repo)
     tag = hashlib.sha256(repo.encode()).hexdigest()[:8]
-    work = os.path.join(BDIR, 'work', '%s-%s-%s' % (crate, tag, os.getpid() if repo != '/repo' else 0))
+    work = os.path.join(BDIR, 'work', '%s-%s-%s' % (crate, tag, ('%d-%s' % (os.getpid(), bid)) if repo != '/repo' else 0))   # scratch trees: one work dir per check (removed afterwards)
     def prepare_work():
         os.makedirs(work, exist_ok=True)
         toml = open(os.path.join(src, 'Cargo.toml.tmpl')).read().replace('@REPO@', repo)
